@@ -92,15 +92,18 @@ def trees(ctx):
         if py[0] == "OK":
             ts.append(py[1])
     # every (parent kind, side, child kind) triple with small payload classes
+    exps = [P.C(2), P.C(-2), ("add", P.C(1), P.C(3)), ("neg", P.V("y")), ("sgn", P.V("y")), ("pow", P.C(2), P.C(3)), ("mul", P.C(2), P.V("y")), ("fact", P.C(3)), ("div", P.C(1), P.C(2))]
     leafs = [P.C(2), P.C(-2), P.Cf(1, 2), P.V("x"), ("mul", P.C(2), P.V("x")), ("mul", P.C(-2), P.V("x")), ("mul", P.C(2), ("pow", P.V("x"), P.C(2)))]
+    leafs += [("mul", P.C(4), ("pow", P.V("x"), e)) for e in exps] + [("pow", P.V("x"), e) for e in exps] + [("pow", P.C(3), e) for e in exps[:6]]
+    leafs += [("fact", P.C(3)), ("neg", ("fact", P.C(3))), ("neg", P.V("x")), ("neg", P.C(2)), ("sgn", P.V("x"))]
     kinds = ["add", "sub", "mul", "div", "pow", "neg", "sgn"]
 
     def mk(k, a, b):
         return (k, a) if k in P.UN else (k, a, b)
-    inner = [mk(k, a, b) for k in kinds for a in leafs[:5] for b in leafs[:2]] + leafs + [("fact", P.C(3))]
+    inner = [mk(k, a, b) for k in kinds for a in leafs[:5] for b in leafs[:2]] + leafs
     for k in kinds:
         for ch in inner:
-            for o in (P.V("y"), P.C(3)):
+            for o in (P.V("y"), P.C(3), ("neg", P.V("z"))):
                 ts.append(mk(k, ch, o))
                 if k not in P.UN:
                     ts.append(mk(k, o, ch))
